@@ -99,6 +99,12 @@ func StartHistory(rec *Recorder, reset Ev) *Chain {
 	}
 	for i := range reset.RInit {
 		op := &reset.RInit[i]
+		if op.Name == "EndBlock" {
+			c.EndBlock(op.Dt)
+			op.OK = true
+			c.normalise(op)
+			continue
+		}
 		if !c.Apply(op) || !op.OK {
 			panic(fmt.Sprintf("initial operation %s failed: %s", op.Name, op.Err))
 		}
